@@ -58,25 +58,30 @@ type typeInfo struct {
 	mk func(tok int64) reflect.Value
 }
 
-var pool = map[string]*typeInfo{}
+var pool = buildPool()
 var poolNames []string
 
-func regPtr[T any](name string, mk func(tok int64) *T) {
+func regPtr[T any](pool map[string]*typeInfo, name string, mk func(tok int64) *T) {
 	pool[name] = &typeInfo{Name: name, RT: reflect.TypeOf((*T)(nil)), mk: func(tok int64) reflect.Value { return reflect.ValueOf(mk(tok)) }}
 }
 
-func init() {
-	regPtr("T0", func(t int64) *T0 { return &T0{t} })
-	regPtr("T1", func(t int64) *T1 { return &T1{t} })
-	regPtr("T2", func(t int64) *T2 { return &T2{t} })
-	regPtr("T3", func(t int64) *T3 { return &T3{t} })
-	regPtr("T4", func(t int64) *T4 { return &T4{t} })
-	regPtr("T5", func(t int64) *T5 { return &T5{t} })
+func buildPool() map[string]*typeInfo {
+	pool := map[string]*typeInfo{}
+	regPtr(pool, "T0", func(t int64) *T0 { return &T0{t} })
+	regPtr(pool, "T1", func(t int64) *T1 { return &T1{t} })
+	regPtr(pool, "T2", func(t int64) *T2 { return &T2{t} })
+	regPtr(pool, "T3", func(t int64) *T3 { return &T3{t} })
+	regPtr(pool, "T4", func(t int64) *T4 { return &T4{t} })
+	regPtr(pool, "T5", func(t int64) *T5 { return &T5{t} })
 	pool["S0"] = &typeInfo{Name: "S0", RT: reflect.TypeOf(S0{}), mk: func(t int64) reflect.Value { return reflect.ValueOf(S0{t}) }}
 	pool["S1"] = &typeInfo{Name: "S1", RT: reflect.TypeOf(S1{}), mk: func(t int64) reflect.Value { return reflect.ValueOf(S1{t}) }}
 	pool["I0"] = &typeInfo{Name: "I0", RT: reflect.TypeOf((*I0)(nil)).Elem(), Iface: true}
 	pool["I1"] = &typeInfo{Name: "I1", RT: reflect.TypeOf((*I1)(nil)).Elem(), Iface: true}
 	pool["I2"] = &typeInfo{Name: "I2", RT: reflect.TypeOf((*I2)(nil)).Elem(), Iface: true}
+	return pool
+}
+
+func init() {
 	for n := range pool {
 		poolNames = append(poolNames, n)
 	}
